@@ -3,7 +3,7 @@
 PROPS = {
     "C06": {
         "module": "Dnp3.Props.C06",
-        "gen": ["Link.lean"],
+        "gen": ["Link.lean", "CrcTable.lean"],
         "engines": ["link"],
         "monitors": None,  # all monitors of the engine
         "exhaustive_thorough": True,
